@@ -216,11 +216,18 @@ def gen_scenario(seed, force_cfg=None, profile=None, drive=None):
                 rows.append({"n": n, "reqs": reqs})
         if rows:
             scn["prestart"] = rows
+    # another simulation alive in the same process, advanced in lock-step (only possible while this one is stepped)
+    if (drive["mode"] == "steps" or drive.get("pre")) and r.random() < 0.3:
+        ref = cfg["refGeo"]
+        scn["shadow"] = {"mode": r.choice(["twin", "twin", "other"]), "lead": r.choice([0, 0, 1, 3]),
+                         "refGeo": [fbits(1.0), fbits(2.0), ref[2]] if r.random() < 0.5 else None}
     # observation / usage options that must not matter: profiling on, command objects re-used
     if r.random() < 0.25:
         scn["simOptions"] = {"profile": True}
     if r.random() < 0.3:
         scn["reuseCommands"] = True
+    if r.random() < 0.3:
+        scn["lateMedium"] = True
     return scn, Behaviour(stable_hash("beh", seed), cfg, prof)
 
 
